@@ -1,5 +1,52 @@
-(** C01 placeholder; replaced below. *)
-From Yarl Require Import Model.Url.
-Example C01_sanity : nonempty [1%N] = true.
-Proof. reflexivity. Qed.
-Print Assumptions C01_sanity.
+(** C01 - canonical output is well-formed ASCII in every component.  Statements only. *)
+From Yarl Require Import Base.PyStr Base.Utf8 Model.Quoter Model.Quoters Spec.QuoteSpec Spec.Rfc3986
+     Preds.PMisc Proofs.QuoterInst Proofs.C01Proofs.
+
+(** For each of the nine quoters of yarl/_quoters.py (regenerated tables), either
+    backend, and EVERY Python string (all lengths; lone surrogates, non-BMP characters,
+    malformed or truncated escapes included): the output is pure ASCII, every '%' in it
+    starts an escape of two upper-case hex digits, and every literal character belongs to
+    the RFC 3986 alphabet of the component that quoter writes.  [comp_ok] is the
+    executable predicate the check applies to the implementation's real components. *)
+Theorem C01_quoter_output :
+  forall k allowed (b : backend) (s : str),
+    In (k, allowed) component_alphabet -> valid_str s ->
+    comp_ok allowed (quote_impl b (eff_of k) s) = true
+    /\ Forall (fun c => (c < 128)%N) (quote_impl b (eff_of k) s).
+Proof. exact quoter_output_component_ok. Qed.
+Print Assumptions C01_quoter_output.
+
+(** generic form: any configuration in which '%' is never literal, space is not literal
+    under qs and protected is a subset of safe produces well-formed output *)
+Theorem C01_quoter_wf :
+  forall (k : qeff), qeff_ok k -> forall (b : backend) (s : str), valid_str s -> wf k (quote_impl b k s) = true.
+Proof. exact quote_impl_wf. Qed.
+Print Assumptions C01_quoter_wf.
+
+(** the literal-character policy of the regenerated tables is exactly RFC 3986's per
+    component (complete sweep of the 128 ASCII characters; QUERY_PART_QUOTER is a subset:
+    it additionally escapes & = + ;) *)
+Theorem C01_policy_table :
+  policy_exact QUOTER rfc_userinfo_part = true /\ policy_exact REQUOTER rfc_userinfo_part = true /\
+  policy_exact PATH_QUOTER rfc_path_char = true /\ policy_exact PATH_REQUOTER rfc_path_char = true /\
+  policy_exact QUERY_QUOTER rfc_query_char = true /\ policy_exact QUERY_REQUOTER rfc_query_char = true /\
+  policy_subset QUERY_PART_QUOTER rfc_query_char = true /\
+  policy_exact FRAGMENT_QUOTER rfc_fragment_char = true /\ policy_exact FRAGMENT_REQUOTER rfc_fragment_char = true.
+Proof. exact policy_table. Qed.
+Print Assumptions C01_policy_table.
+
+(** the pure-Python quoter drops lone surrogates and then follows the specification *)
+Theorem C01_py_surrogates :
+  forall (k : qeff) s, valid_str s -> quote_py k s = qspec k (drop_sur s).
+Proof. exact quote_py_total. Qed.
+Print Assumptions C01_py_surrogates.
+
+(** non-vacuity: a string with a control character, a quote, a non-BMP character, a lone
+    surrogate, a malformed and a lower-case escape *)
+Example C01_example :
+  quote_impl BC (eff_of PATH_REQUOTER) [0; 34; 128512; 55296; 37; 122; 37; 99; 51; 32]
+  = [37;48;48; 37;50;50; 37;70;48;37;57;70;37;57;56;37;56;48; 37;50;53;122; 37;67;51; 37;50;48]
+  /\ quote_impl BPy (eff_of PATH_REQUOTER) [0; 34; 128512; 55296; 37; 122; 37; 99; 51; 32]
+  = [37;48;48; 37;50;50; 37;70;48;37;57;70;37;57;56;37;56;48; 37;50;53;122; 37;67;51; 37;50;48].
+Proof. split; vm_compute; reflexivity. Qed.
+Print Assumptions C01_example.
